@@ -118,6 +118,8 @@ def run(ctx):
     ob_cli = "`spowtd simulate recession`: ET = model meanET, rows highest to lowest in mm with measured and simulated time"
     for _ in range(ncli):
         tr = P.gen_truth(rng, noise=rng.choice([0.0, 0.4]))
+        if rng.random() < 0.7:
+            tr.add_stray(rng)       # an interstorm interval that is not part of the master curve, with other ET
         zstep = rng.choice([1.0, 0.5, 2.0])
         w = P.run_workflow(ctx, tr.rows(), tr.s, tr.j, zstep, keep_db=True)
         if w["status"].get("recession", ("x",))[0] != "ok":
@@ -154,6 +156,8 @@ def run(ctx):
         im = C.impl_tables(t)
         inter = dict((a, b) for a, b in im["interstorms"])
         ivs = [[int(r[0]), inter[int(r[0])]] for r in t["recession_interval"]]
+        if len(inter) > len(ivs):
+            ctx.count("datasets_with_interstorm_intervals_outside_the_master_curve")
         met = Fraction(ctx.driver.call("meanet.q", {"db": P.db_payload_q(t), "intervals": ivs}))
         vals = [Fraction(x[2]) for a, b in ivs for x in t["evapotranspiration"] if a <= x[0] < b]
         own = sum(vals) / len(vals) * 24
@@ -199,5 +203,4 @@ def replay(ctx, doc):
         before = len(ctx.violations)
         check_curve(ctx, inp["parameters"], inp["grid"], inp["mean"], inp["curvature_km"], inp["et_mm_d"], inp)
         return len(ctx.violations) == before
-    print("replay of CLI cases: rerun the check with VERIF_SEED=%s" % doc.get("seed"))
-    return True
+    return None   # re-run the stream with the recorded seed (check.py does it)
